@@ -332,6 +332,13 @@ def run(ctx):
     rule_forms(ctx, tu)
     rule_antisym(ctx, tu)
     rule_nbr_table(ctx, tu)
+    from . import c01
+    c01.rule_phase(ctx, tu, eff, "C02.PHASE")
+    # state and chemostat flags reach the engines in one and the same layout (a flag on another entry freezes a species that
+    # takes part in a conservation law, or lets a reservoir drift)
+    from .. import vlay, idx as idxmod
+    vlay.check_init_layouts(ctx, "C02.TRANSPOSE", tu, idxmod.Idx(tu))
+    ctx.floor("C02.TRANSPOSE", 4)
     from . import c16
     c16.rule_uncg(ctx, ctx.py, "C02.UNCG")
     from .. import lints
